@@ -94,12 +94,15 @@ MkItem(mode, s, k) ==
 \* ---- (flags, ending) combinations per kind: every terminator option the flags configure, the end of header,
 \* and the end of input where POptInputEndF is set
 Combos(kind) ==
-  CASE kind = "uriparams" -> {<<64, "eoh">>, <<64, "term">>, <<72, "eoh">>, <<72, "term">>, <<72, "end">>}
-    [] kind = "urihdrs"   -> {<<128, "eoh">>, <<136, "eoh">>, <<136, "end">>}
+  CASE kind = "uriparams" -> {<<64, "eoh">>, <<64, "term">>, <<72, "eoh">>, <<72, "term">>, <<72, "end">>,
+                              <<68, "sp">>, <<68, "term">>, <<68, "eoh">>}              \* + white space then token (a request URI)
+    [] kind = "urihdrs"   -> {<<128, "eoh">>, <<136, "eoh">>, <<136, "end">>, <<132, "sp">>, <<133, "sp">>, <<133, "term">>}
     [] kind = "tokparam"  -> {<<0, "eoh">>, <<1, "eoh">>, <<1, "term">>, <<2, "eoh">>, <<2, "term">>,
                               <<4, "eoh">>, <<4, "sp">>, <<4, "ht">>, <<8, "eoh">>, <<8, "end">>,
                               <<9, "eoh">>, <<9, "term">>, <<9, "end">>,
-                              <<12, "eoh">>, <<12, "sp">>, <<12, "end">>, <<16, "eoh">>, <<32, "eoh">>}
+                              <<12, "eoh">>, <<12, "sp">>, <<12, "end">>, <<16, "eoh">>, <<32, "eoh">>,
+                              \* a character terminator AND white space then token: whichever comes first
+                              <<5, "sp">>, <<5, "term">>, <<5, "eoh">>, <<6, "sp">>, <<6, "term">>, <<13, "sp">>, <<13, "term">>, <<13, "end">>}
 PCaps(kind) == IF kind = "tokparam" THEN {-1} ELSE {0, 1, 2, 8}
 EndingOf(flags, e) ==
   CASE e = "end" -> EndInput [] e = "eoh" -> EndEOH
